@@ -395,6 +395,7 @@ func (c *c10) lookup(i int, lk spec.Lookup) {
 	c.inCall++
 	if c.multi {
 		simrt.BeginCall()
+		simrt.CallBudget(5*callBudgetOf(desc), desc)
 	}
 	if c.multi && c.inCall > 1 {
 		probesC["lookups_overlapping_in_time"]++
